@@ -52,7 +52,7 @@ EXTERNAL = {
     "os.stat": ([VE], "stat() after isfile/isdir/access succeeded on the same path: OSError only by a concurrent change (out of scope); ValueError for an embedded NUL"),
     "os.access": ([VE], "access() returns False on OS errors; ValueError for an embedded NUL"),
     "os.chdir": ([], "chdir into the directory of a file that was just opened / back to the previous cwd; a directory removed concurrently is out of scope"),
-    "os.getcwd": ([], "the harness runs in an existing cwd; a removed cwd is out of scope"),
+    "os.getcwd": ([OS + "+"], "fails with FileNotFoundError (an OSError) when the working directory of the process has been removed"),
     "os.fspath": ([], "argument type was checked by isinstance just before"),
     "os.getenv": ([], ""), "os.environ.get": ([], ""),
     "os.path.abspath": ([], "pure (getcwd failure is accounted at os.getcwd)"),
@@ -402,6 +402,22 @@ IMPLICIT_SITES = [
      "[tag] an explicit !!timestamp tag on a scalar that is not a timestamp: PyYAML's construct_yaml_timestamp calls .groupdict() on a "
      "failed match (the loader removes only the IMPLICIT timestamp resolver); AttributeError is not a YAMLError",
      {"shape": "basic", "entry": "parse_args", "input": ["--any=!!timestamp abc"]}),
+    ("_core.ArgumentParser._apply_actions", AE,
+     "[non-mapping] parse_object given something that is not a dict/Namespace: cfg.__dict__ -> 'list' object has no attribute '__dict__'",
+     {"shape": "basic", "entry": "parse_object", "input": [1]}),
+    ("_actions._ActionPrintConfig.print_config_if_requested", VE,
+     "[huge-int] --print_config with an int value beyond CPython's 4300-digit int->str limit (given in hex/octal/binary, which parses "
+     "fine): the YAML dump calls str(int) -> ValueError",
+     {"shape": "basic", "entry": "parse_args", "input": ["--a=0x" + "f" * 5000, "--print_config"]}),
+    ("_core.ArgumentParser._check_value_key", VE,
+     "[huge-int] the `not among choices` message renders a >4300-digit int that a config gave in hex (YAML loads 0xfff... as int)",
+     {"shape": "plain", "entry": "parse_string", "input": "ch: 0x" + "f" * 5000 + "\n"}),
+    ("_typehints.ActionTypeHint._check_type", VE,
+     "[huge-int] the type-error message of a typed option renders a >4300-digit int found inside a wrong-shaped value",
+     {"shape": "plain", "entry": "parse_string", "input": "m:\n  +: 0x" + "f" * 5000 + "\n"}),
+    ("_actions._ActionSubCommands.get_subcommands", VE,
+     "[huge-int] the `expected subcommand to be one of` message renders a >4300-digit int given as the sub-command name",
+     {"shape": "subcommands", "entry": "parse_string", "input": "subcommand: 0x" + "f" * 5000 + "\n"}),
     ("_actions._ActionPrintConfig.__call__", "builtins.IndexError",
      "argparse hands `--print_config=--` to the action as the empty list: value[0] -> list index out of range",
      {"shape": "basic", "entry": "parse_args", "input": ["--print_config=--"]}),
@@ -455,6 +471,9 @@ FINDING_KEYS = {
     23: "json-int-digit-limit",
     24: "registered-type-arithmetic-error",
     25: "yaml-timestamp-tag",
+    26: "parse-object-non-mapping",
+    27: "huge-int-rendering",
+    28: "cwd-deleted",
 }
 # key -> [(function, class or superclass, kind prefix, modes)]; modes: "t" = only when exit_on_error=True, "f" = only
 # when False, "tf" = both. A site is a finding site only if it ESCAPES an entry point and its class is not the
@@ -486,6 +505,12 @@ FINDING_SITES = {
     "any-class-path-override": [("_typehints.ActionTypeHint.__call__", AE, "implicit", "tf")],
     "registered-type-arithmetic-error": [("typing.RegisteredType.deserializer", "builtins.ArithmeticError", "implicit: [registered]", "tf")],
     "yaml-timestamp-tag": [("_loaders_dumpers.yaml_load", AE, "implicit: [tag]", "tf")],
+    "parse-object-non-mapping": [("_core.ArgumentParser._apply_actions", AE, "implicit: [non-mapping]", "tf")],
+    "huge-int-rendering": [("_actions._ActionPrintConfig.print_config_if_requested", VE, "implicit: [huge-int]", "tf"),
+                           ("_core.ArgumentParser._check_value_key", VE, "implicit: [huge-int]", "tf"),
+                           ("_typehints.ActionTypeHint._check_type", VE, "implicit: [huge-int]", "tf"),
+                           ("_actions._ActionSubCommands.get_subcommands", VE, "implicit: [huge-int]", "tf")],
+    "cwd-deleted": [("_util.Path.__init__", OS, "ext:os.getcwd", "tf"), ("_util.change_to_path_dir", OS, "ext:os.getcwd", "tf")],
     "json-int-digit-limit": [("_loaders_dumpers.json_load", VE, "implicit", "tf")],
     "print-config-value-empty": [("_actions._ActionPrintConfig.__call__", "builtins.IndexError", "implicit", "tf")],
     "list-option-given-mapping": [("_typehints.ActionTypeHint._check_type", "builtins.RuntimeError", "implicit", "tf")],
